@@ -418,6 +418,51 @@ def run(tier, seed):
             fails += 1
             rep.violation("tee:handle", {"children": n, "why": why})
             break
+    # items are opaque to a tee: objects that claim to equal everything (or whose comparison / truth test raises) travel
+    # through it like any other item, for every interleaving of the children
+    class EqualsAll:
+        def __eq__(self, other):
+            return True
+
+        def __ne__(self, other):
+            return False
+
+        def __hash__(self):
+            return 1
+
+    class NoTouch:
+        def _no(self, *a_):
+            raise AssertionError("a tee inspected an item")
+        __eq__ = __ne__ = __bool__ = __hash__ = __lt__ = __len__ = _no
+    for k in range(30 if tier == "quick" else 600):
+        n = rng.choice([2, 3])
+        items = [rng.choice([EqualsAll, NoTouch, object])() for _ in range(rng.randrange(1, 6))]
+        src = make_source(items, 0)
+        kids = list(a.tee(src, n))
+        outs = [[] for _ in range(n)]
+
+        async def go2():
+            live = list(range(n))
+            while live:
+                i = rng.choice(live)
+                try:
+                    outs[i].append(await kids[i].__anext__())
+                except StopAsyncIteration:
+                    live.remove(i)
+        try:
+            drive(go2())
+            why = None
+            for i in range(n):
+                if len(outs[i]) != len(items) or builtins.any(x is not y for x, y in builtins.zip(outs[i], items)):
+                    why = "child %d received %d of %d items (kinds %r)" % (i, len(outs[i]), len(items), [type(x).__name__ for x in items])
+                    break
+        except BaseException as e:  # noqa
+            why = "failed: %r" % (e,)
+        rep.count(("tee-opaque-items", k), True)
+        if why:
+            fails += 1
+            rep.violation("tee:opaque-items", {"children": n, "items": [type(x).__name__ for x in items], "why": why})
+            break
     rep.notes["configuration_distribution"] = dist
     shards = [texts[i:i + 300] for i in range(0, len(texts), 300)]
     outs = coq_eval_files("c09", [HEADER + "Definition cases : list tcase := [\n" + ";\n".join(sh) + "\n].\nEval vm_compute in (tfailing cases).\n" for sh in shards])
